@@ -171,6 +171,28 @@ func TestGvcReplay(t *testing.T) {
 	}
 }
 `}},
+	{"templater.ReplaceWithExtra$1", "result.0 == rendered", scenario{pkgRel: "internal/templater", what: "a value that contains the text '<no value>' loses it when it is substituted into a command",
+		src: `package templater
+
+import (
+	"testing"
+
+	"github.com/go-task/task/v3/taskfile/ast"
+)
+
+func TestGvcReplay(t *testing.T) {
+	vars := ast.NewVars()
+	vars.Set("CLI_ARGS", ast.Var{Value: "'<no value>'"})
+	cache := &Cache{Vars: vars}
+	got := Replace("echo {{.CLI_ARGS}}", cache)
+	if err := cache.Err(); err != nil {
+		t.Fatalf("unexpected error: %v", err)
+	}
+	if got != "echo '<no value>'" {
+		t.Fatalf("GVC-REPLAY-REPRODUCED: the argument '<no value>' given after -- reaches the command as %q instead of %q", got, "echo '<no value>'")
+	}
+}
+`}},
 	{"v3.(*Executor).RunTask$1", "precondsOK(call)", scenario{pkgRel: "", what: "--force runs the commands of a task whose precondition fails",
 		src: gvcHeader + `
 func TestGvcReplay(t *testing.T) {
